@@ -873,3 +873,11 @@ mod test {
         }
     }
 }
+
+// Verification hook: with the `verif-hook` feature the unit-test build includes an external
+// harness file (path in the SYLVIA_VERIF_HARNESS environment variable at compile time) so that it
+// can drive the private `*_impl` functions. Inactive (and absent from the build) otherwise.
+#[cfg(all(test, feature = "verif-hook"))]
+mod verif_hook {
+    include!(env!("SYLVIA_VERIF_HARNESS"));
+}
